@@ -229,7 +229,14 @@ pub fn solve<F: Function>(
     let mut damping = 1.0;
     let mut prev_err = f32::INFINITY;
     let mut err_buf = [0f32; 4];
-    for i in 0.. {
+    // Upper bound on the number of iterations (the usual `200 * (n + 1)`, with
+    // a floor).  An unknown whose solution is exactly zero in an equation
+    // whose other terms vanish too is approached through ever-smaller steps,
+    // each of which still changes its value and decreases the error: none of
+    // the exit tests below fires before the value underflows, millions of
+    // iterations later.
+    let max_iterations = (200 * (cur.len() + 1)).max(2000);
+    for i in 0..max_iterations {
         solver.get_jacobian(&cur, &mut jacobian, &mut result);
 
         // Early exit if we're done: every residual is zero, or is below the
